@@ -131,3 +131,24 @@ fn fixed_f5_nested_rooted_branch() {
         assert!(!glob.has_root().is_sometimes(), "F5: a glob is always or never rooted");
     }
 }
+
+// ---- genuine defects of the pinned tree that lie OUTSIDE every obligation (DESIGN 11.2 / 11.10): not
+// ---- known findings of a check; recorded so that a reader can reproduce them (asserted PRESENT)
+
+#[test]
+fn outside_c06_outer_leaks_between_sibling_branches() {
+    // `{c,*}` is preceded by `/` and followed by nothing, yet it inherits the right neighbour `*` of the
+    // unrelated first alternation (one `outer` variable for the whole breadth-first traversal)
+    assert!(Glob::new("{a,b}*/{c,*}").is_err());
+    assert!(Glob::new("<a:1,>*/{c,*}").is_err());
+    // the same second alternation without an earlier branch builds
+    assert!(Glob::new("a*/{c,*}").is_ok());
+    assert!(Glob::new("x/{c,*}").is_ok());
+}
+
+#[test]
+fn outside_c08_partition_with_a_flag_before_a_boundary() {
+    // a flag group is not a token: the sum of the popped token spans is short by its length
+    let (_, postfix) = Glob::new("a(?i)/**/b").unwrap().partition();
+    assert_eq!(postfix.map(|glob| glob.to_string()), Some(String::from("?i)/**/b")));
+}
